@@ -11,9 +11,13 @@ def aff(p):
     return [x for x in LEDGER if x != p]
 
 F = []
-def open_(prop, id_, sig, also, what, witness, flags, affects=None):
+def open_(prop, id_, sig, also, what, witness, flags, affects=None, cells=None, cell_kinds=None):
     F.append(dict(property=prop, id=id_, status="open", signature=sig, also=also, what=what, witness=witness, trigger_off=flags,
                   affects=aff(prop) if affects is None else affects))
+    if cells:
+        # cells of C03's (pending state|discarding command|follow-up) table that fail because of this finding, and with which rules
+        F[-1]["cells"] = cells
+        F[-1]["cell_kinds"] = cell_kinds
 def fixed(prop, id_, grep, what, witness):
     c = fixc(grep)
     assert c, grep
@@ -37,10 +41,13 @@ open_("C03", "D24", "C03/unsound-note@f.txt:4", ["C03/unsound-blame@f.txt:4"],
       "c03.ai_reindents_human_lines_then_stash_roundtrip", ["ai_ws_touch_strict"])
 open_("C03", "D36", "C03/unsound-note@src/c.rs:11", ["C03/unsound-note@src/c.rs:12", "C03/unsound-blame@src/c.rs:11", "C03/unsound-blame@src/c.rs:12", "C05/hash-without-prompt"],
       "history (recorded script witnesses/d36_c03_1_230.json): S2 inserts 2 lines into src/c.rs (and other edits); a commit of another file only turns them into INITIAL-only pending claims; `git stash push` followed by `git stash clear` discards the work; a person types 3 lines at the same position; commit => the person's lines src/c.rs:11-12 are committed as S2, and the note lists a session hash without a prompt record",
-      "recorded:witnesses/d36_c03_1_230.json", ["stash_discard_with_initial_pending"])
+      "recorded:witnesses/d36_c03_1_230.json", ["stash_discard_with_initial_pending"],
+      cells=["initial|stash-*|person*", "initial-staged|stash-*|person*"], cell_kinds=["C03/unsound-note", "C03/unsound-blame", "C05/hash-without-prompt"])
 open_("C03", "D55", "C03/unsound-note@f.txt:1", ["C03/unsound-blame@f.txt:1"],
       "history: S2's line at the top of f.txt is pending (a commit of another file left it uncommitted, so only INITIAL holds it, by line number); `git restore -- f.txt` discards it; a person, reported by an IDE-style checkpoint, types three lines at the top; commit => the person's first line is committed as S2's. `git restore` (worktree / --staged --worktree / --source forms, `restore .`) is not hooked at all, and `git checkout f.txt` / `git checkout .` / `git checkout HEAD f.txt` without `--` are not recognised as path checkouts, so the stale INITIAL survives; the repair needs a new command hook and pathspec parsing",
-      "c03.restore_discards_pending_lines_then_person_types_there", ["restore_with_initial_pending"])
+      "c03.restore_discards_pending_lines_then_person_types_there", ["restore_with_initial_pending"],
+      cells=["initial|restore-*|*", "initial-staged|restore-*|*", "initial|checkout-f|*", "initial|checkout-dot|*", "initial|checkout-head-f|*", "initial-staged|checkout-head-f|*"],
+      cell_kinds=["C03/unsound-note", "C03/unsound-blame"])
 open_("C03", "D56", "C05/hash-without-prompt", [],
       "history: S1's three lines in f.txt are pending (INITIAL) after a commit of `-dash.txt` only, whose edit a person reported by a checkpoint; `git add -A; git reset -q -- -dash.txt`; the person edits `-dash.txt`; commit => the note lists S1's hash for f.txt without a prompt record (for a pathspec whose name starts with a dash the pathspec reset archives HEAD's working log, INITIAL prompts included, and rebuilds it from checkpoints only)",
       "c03.reset_path_with_dash_name_loses_prompt_record", ["reset_path_dash_name"])
@@ -143,7 +150,7 @@ open_("C20", "D53", "C20/edited-file-not-recorded-in-its-repository@nested-repo"
       "payload: agent-v1 ai_agent report, hook started in <repo>, edited_filepaths = [<repo>/vendor/inner/a.txt] where vendor/inner is an independent repository nested in the outer work tree => exit 0, but the edit is recorded neither in the inner repository (which contains the file) nor anywhere else (files of sibling repositories are routed to their own repository; nested ones are taken for files of the outer work tree and then dropped)",
       "c20.file_of_nested_repository_edited_from_outer_repository", ["probe:nested-repo"], affects=[])
 open_("C11", "D8", "C11/not-serializable@overlapping-journal-windows", [],
-      "schedule: two `git-ai checkpoint` processes (agents S1 on a.txt, S2 on b.txt) both pass their read of .git/ai/working_logs/<HEAD>/checkpoints.jsonl before either writes it back (append_checkpoint and post-commit read-modify-write the journal with no lock) => the later write drops the other record and that agent's line is committed as human; identified by call site: any non-serializable outcome whose schedule has two journal read..exit windows overlapping is counted as this finding",
+      "schedule: two `git-ai checkpoint` processes (agents S1 on a.txt, S2 on b.txt) both pass their read of .git/ai/working_logs/<HEAD>/checkpoints.jsonl before either writes it back (append_checkpoint and post-commit read-modify-write the journal with no lock) => the later write drops the other record and that agent's line is committed as human; identified by call site: a non-serializable outcome whose schedule has two lost-update windows of the unchanged code overlapping (agent report: entering append_checkpoint .. its journal write; git command: first journal read .. exit) is counted as this finding",
       "c11.two_checkpoints_both_read_before_either_writes", [])
 open_("C11", "D45", "C11/not-serializable@stale-base-append", [],
       "schedule: `git-ai checkpoint` for b.txt starts (resolves HEAD) while `git commit` of a.txt is still running and performs its journal append only after the commit process exits => the record lands in working_logs/<old HEAD>, which nothing reads again; S2's line is committed as human; identified by call site: non-serializable outcome, no overlapping windows, and the trace shows a checkpoints_write into the working log of a commit that is not HEAD",
